@@ -1,6 +1,9 @@
 import YaqsModel.Lemmas.Attribution
 import YaqsModel.Lemmas.LocalExpect
 import Mathlib.LinearAlgebra.Matrix.Notation
+import YaqsModel.Lemmas.Schmidt
+import YaqsModel.Lemmas.SchmidtModel
+import YaqsModel.Lemmas.SchmidtEntropy
 
 /-!
 # C11 — every observable object receives its own value, whatever the listing order
@@ -222,3 +225,298 @@ example : (∀ B ∈ [exL], ∑ s, (B s)ᴴ * B s = 1) ∧ (∀ B ∈ [exR], ∑
     by decide, by decide⟩
 
 end Yaqs.LocalExpect
+
+
+/-!
+## extension: bond entropy and Schmidt spectrum are the Schmidt data of the dense state
+
+`MPS.get_entropy([i, i+1])` / `MPS.get_schmidt_spectrum([i, i+1])` merge the site tensors `a = tensors[i]`,
+`b = tensors[i+1]` into `theta_mat[(σ, l), (τ, r)] = Σ_c a[σ, l, c] · b[τ, c, r]` (`thetaM`; the executable list
+version `thetaMat` of `Model/Schmidt.lean` is tied to the real code on every run) and take its singular values.
+`evaluate_observables` (since 0704f22) first walks the orthogonality centre to site `i` (`centre_walk` above: the
+entropy / Schmidt entry is evaluated with the tracked centre on `sites[0] = min(sites)`), so sites `0 … i-1` are left
+isometries (the `Q` factors of the QR shifts), site `i` is the centre and sites `i+1 … L-1` are right isometries
+(the simulator's B form).  The theorems: in that form the dense amplitude matrix of the cut is `P · M · Q` with `P`
+an isometry and `Q` a co-isometry, hence the reduced density matrices of the two halves are isometric images of
+`M Mᴴ` / `Mᴴ M`, their non-zero spectrum is `{s_k²}` for the singular values `s_k` of `M` (eigen-equation and all
+power traces), and the number / array returned is `−Σ p_k log(p_k + tiny)`, `p_k = s_k² / Σ s²`, resp. the
+NaN-padded `s`.  The SVD itself is a hypothesis (`M = U diag(s) V`, `Uᴴ U = 1`, `V Vᴴ = 1`, `s` real), spec-tied on
+the matrices actually seen.  "Power traces determine the spectrum" (Newton's identities) is cited, not formalised.
+-/
+namespace Yaqs.Schmidt
+open Matrix Yaqs.LocalExpect
+
+section Blocks
+variable {K : Type*} [CommRing K] [StarRing K]
+variable {α β σ σ' ιa ι κ ι' ιb k : Type*}
+variable [Fintype α] [Fintype β] [Fintype σ] [Fintype σ'] [Fintype ιa] [Fintype ι] [Fintype κ] [Fintype ι'] [Fintype ιb]
+  [Fintype k]
+variable [DecidableEq α] [DecidableEq β] [DecidableEq σ] [DecidableEq σ'] [DecidableEq ιa] [DecidableEq ι]
+  [DecidableEq κ] [DecidableEq ι'] [DecidableEq ιb] [DecidableEq k]
+
+/-- **C11.5 (`cut_factorisation`, entropy / Schmidt clause)**  Let the sites left of the cut contribute the blocks
+    `Lf τ_L` (product of the site matrices of sites `0 … i-1` for the left configuration `τ_L`) with
+    `Σ_τ Lf(τ)ᴴ Lf(τ) = 1` (left-canonical prefix), the sites right of it the blocks `Rf τ_R` with
+    `Σ_τ Rf(τ) Rf(τ)ᴴ = 1` (right-canonical suffix), `A = tensors[i]` (the centre), `B = tensors[i+1]` — any bond
+    dimensions, nothing padded, the two physical dimensions may differ.  `A` and `B` are arbitrary: the centre may
+    sit on either tensor of the cut (`get_entropy` with the centre on `i+1` is the same number; tied).  Then the dense amplitude matrix of the cut
+    `Ψ[(σ_0 … σ_i), (σ_{i+1} … σ_{L-1})]` is `P · M · Q` with `M` exactly the matrix the code hands to the SVD,
+    `Pᴴ P = 1` and `Q Qᴴ = 1`. -/
+theorem cut_factorisation (Lf : α → Matrix ιa ι K) (A : σ → Matrix ι κ K) (B : σ' → Matrix κ ι' K)
+    (Rf : β → Matrix ι' ιb K) (hL : ∑ a, (Lf a)ᴴ * Lf a = 1) (hR : ∑ b, Rf b * (Rf b)ᴴ = 1) :
+    psiM Lf A B Rf = leftP Lf * thetaM A B * rightQ Rf ∧
+    (leftP (σ := σ) Lf)ᴴ * leftP (σ := σ) Lf = 1 ∧
+    rightQ (σ' := σ') Rf * (rightQ (σ' := σ') Rf)ᴴ = 1 :=
+  ⟨psiM_eq Lf A B Rf, leftP_isometry Lf hL, rightQ_coisometry Rf hR⟩
+
+/-- **C11.5 (`schmidt_from_centre`)**  Hence the reduced density matrix of the left half `Ψ Ψᴴ` is the isometric image
+    `P (M Mᴴ) Pᴴ` of the Gram matrix of what the code SVDs, and that of the right half `Ψᴴ Ψ` is `Qᴴ (Mᴴ M) Q`. -/
+theorem schmidt_from_centre (Lf : α → Matrix ιa ι K) (A : σ → Matrix ι κ K) (B : σ' → Matrix κ ι' K)
+    (Rf : β → Matrix ι' ιb K) (hL : ∑ a, (Lf a)ᴴ * Lf a = 1) (hR : ∑ b, Rf b * (Rf b)ᴴ = 1) :
+    psiM Lf A B Rf * (psiM Lf A B Rf)ᴴ = leftP Lf * (thetaM A B * (thetaM A B)ᴴ) * (leftP Lf)ᴴ ∧
+    (psiM Lf A B Rf)ᴴ * psiM Lf A B Rf = (rightQ Rf)ᴴ * ((thetaM A B)ᴴ * thetaM A B) * rightQ Rf := by
+  constructor
+  · exact gram_left _ _ _ _ (psiM_eq Lf A B Rf) (by rw [rightQ_coisometry Rf hR, Matrix.mul_one])
+  · exact gram_right _ _ _ _ (psiM_eq Lf A B Rf) (by rw [leftP_isometry Lf hL, Matrix.one_mul])
+
+/-- **C11.5 (`schmidt_from_centre`, environment form)**  The same with the weaker hypotheses of `local_expect_dense`
+    (zero-padded bonds, where the environments are projectors rather than identities): it is enough that the right
+    environment `E_R = Σ_τ Rf(τ) Rf(τ)ᴴ` is absorbed by `B` (`B[τ] E_R = B[τ]`) for the left half, and that the left
+    environment `E_L` is absorbed by the centre (`E_L A[σ] = A[σ]`) for the right half. -/
+theorem schmidt_from_centre_env (Lf : α → Matrix ιa ι K) (A : σ → Matrix ι κ K) (B : σ' → Matrix κ ι' K)
+    (Rf : β → Matrix ι' ιb K) :
+    ((∀ t, B t * (∑ b, Rf b * (Rf b)ᴴ) = B t) →
+      psiM Lf A B Rf * (psiM Lf A B Rf)ᴴ = leftP Lf * (thetaM A B * (thetaM A B)ᴴ) * (leftP Lf)ᴴ) ∧
+    ((∀ s, (∑ a, (Lf a)ᴴ * Lf a) * A s = A s) →
+      (psiM Lf A B Rf)ᴴ * psiM Lf A B Rf = (rightQ Rf)ᴴ * ((thetaM A B)ᴴ * thetaM A B) * rightQ Rf) := by
+  constructor
+  · intro h
+    refine gram_left _ _ _ _ (psiM_eq Lf A B Rf) ?_
+    rw [rightQ_gram, thetaM_mul_kronOne]
+    congr 1; funext t; exact h t
+  · intro h
+    refine gram_right _ _ _ _ (psiM_eq Lf A B Rf) ?_
+    rw [leftP_gram, kronOne_mul_thetaM]
+    congr 1; funext s; exact h s
+
+/-- **C11.5 (`schmidt_values`: the singular values the code reads are the Schmidt coefficients)**  With the SVD spec
+    for the matrix the code decomposes (`M = U diag(s) V`, `Uᴴ U = 1`, `V Vᴴ = 1`, `s` real) and `W = P U`:
+    `W` is an isometry, `ρ_left = Ψ Ψᴴ = W diag(s²) Wᴴ`, every column of `W` is an eigenvector of `ρ_left` with
+    eigenvalue `s_k²`, and `tr ρ_leftⁿ = Σ_k s_k^{2n} = tr ρ_rightⁿ` for every `n ≥ 1` — the power traces, which
+    determine the non-zero spectrum with multiplicities (over a field of characteristic 0; cited).  `n = 1`:
+    `Σ s_k² = ⟨ψ|ψ⟩`, the `norm` the code divides by. -/
+theorem schmidt_values (Lf : α → Matrix ιa ι K) (A : σ → Matrix ι κ K) (B : σ' → Matrix κ ι' K)
+    (Rf : β → Matrix ι' ιb K) (hL : ∑ a, (Lf a)ᴴ * Lf a = 1) (hR : ∑ b, Rf b * (Rf b)ᴴ = 1)
+    (U : Matrix (σ × ι) k K) (s : k → K) (V : Matrix k (σ' × ι') K)
+    (hM : thetaM A B = U * diagonal s * V) (hU : Uᴴ * U = 1) (hV : V * Vᴴ = 1) (hs : ∀ i, star (s i) = s i) :
+    let Ψ := psiM Lf A B Rf
+    let W := leftP Lf * U
+    Wᴴ * W = 1 ∧
+    Ψ * Ψᴴ = W * diagonal (fun i => s i ^ 2) * Wᴴ ∧
+    (∀ i, (Ψ * Ψᴴ).mulVec (fun r => W r i) = s i ^ 2 • fun r => W r i) ∧
+    (∀ n : ℕ, trace ((Ψ * Ψᴴ) ^ (n + 1)) = ∑ i, s i ^ (2 * (n + 1))) ∧
+    (∀ n : ℕ, trace ((Ψᴴ * Ψ) ^ (n + 1)) = ∑ i, s i ^ (2 * (n + 1))) := by
+  intro Ψ W
+  have hP := leftP_isometry (σ := σ) Lf hL
+  have hQ := rightQ_coisometry (σ' := σ') Rf hR
+  have hW : Wᴴ * W = 1 := by
+    show (leftP Lf * U)ᴴ * (leftP Lf * U) = 1
+    rw [Matrix.conjTranspose_mul]
+    calc Uᴴ * (leftP Lf)ᴴ * (leftP Lf * U) = Uᴴ * (((leftP Lf)ᴴ * leftP Lf) * U) := by simp only [Matrix.mul_assoc]
+      _ = 1 := by rw [hP, Matrix.one_mul, hU]
+  have hρ : Ψ * Ψᴴ = W * diagonal (fun i => s i ^ 2) * Wᴴ := by
+    rw [(schmidt_from_centre Lf A B Rf hL hR).1, svd_gram_left _ U s V hM hV hs]
+    show _ = leftP Lf * U * _ * (leftP Lf * U)ᴴ
+    rw [Matrix.conjTranspose_mul]
+    simp only [Matrix.mul_assoc]
+  have hρW : Ψ * Ψᴴ * W = W * diagonal (fun i => s i ^ 2) := by
+    rw [hρ, Matrix.mul_assoc, hW, Matrix.mul_one]
+  have hpow : ∀ i n, (s i ^ 2) ^ (n + 1) = s i ^ (2 * (n + 1)) := fun i n => (pow_mul _ _ _).symm
+  refine ⟨hW, hρ, ?_, ?_, ?_⟩
+  · intro i
+    funext r
+    have := congrFun (congrFun hρW r) i
+    rw [Matrix.mul_diagonal] at this
+    simp only [Matrix.mulVec, dotProduct, Pi.smul_apply, smul_eq_mul]
+    rw [Matrix.mul_apply] at this
+    rw [this, mul_comm]
+  · intro n
+    rw [hρ, iso_conj_pow_trace W _ hW n]
+    exact Finset.sum_congr rfl fun i _ => hpow i n
+  · intro n
+    let W' : Matrix ((σ' × β) × ιb) k K := (rightQ Rf)ᴴ * Vᴴ
+    have hWt : W'ᴴ = V * rightQ Rf := by
+      show ((rightQ Rf)ᴴ * Vᴴ)ᴴ = _
+      rw [Matrix.conjTranspose_mul, Matrix.conjTranspose_conjTranspose, Matrix.conjTranspose_conjTranspose]
+    have hW' : W'ᴴ * W' = (1 : Matrix k k K) := by
+      rw [hWt]
+      show V * rightQ Rf * ((rightQ Rf)ᴴ * Vᴴ) = (1 : Matrix k k K)
+      rw [Matrix.mul_assoc, ← Matrix.mul_assoc (rightQ Rf), hQ, Matrix.one_mul, hV]
+    have hρ' : Ψᴴ * Ψ = W' * diagonal (fun i => s i ^ 2) * W'ᴴ := by
+      rw [(schmidt_from_centre Lf A B Rf hL hR).2, svd_gram_right _ U s V hM hU hs, hWt]
+      show _ = (rightQ Rf)ᴴ * Vᴴ * _ * _
+      simp only [Matrix.mul_assoc]
+    rw [hρ', iso_conj_pow_trace W' _ hW' n]
+    exact Finset.sum_congr rfl fun i _ => hpow i n
+
+end Blocks
+
+section ChainForm
+variable {K : Type*} [CommRing K] [StarRing K] {ι σ : Type*} [Fintype ι] [DecidableEq ι] [Fintype σ] [DecidableEq σ]
+
+/-- **C11.5 (`cut_factorisation` for the chain the code holds)**  For the tensor list `pre ++ A :: B :: post` with
+    every tensor of `pre` a left isometry and every tensor of `post` a right isometry (uniform bond type, as in
+    `local_expect_dense_canonical`; `A` is the centre, `B` is arbitrary — in the code it is a right isometry too),
+    every dense amplitude `(Π_k T_k[τ_k])[a, b]` is the entry of `P · M · Q` at row `(τ_0 … τ_i; a)`, column
+    `(τ_{i+1} … τ_{L-1}; b)`, where `P` / `Q` are built from the products of the prefix / suffix tensors and satisfy
+    `Pᴴ P = 1`, `Q Qᴴ = 1`: the hypotheses of `schmidt_from_centre` / `schmidt_values` hold for the form
+    `evaluate_observables` establishes before calling `get_entropy` / `get_schmidt_spectrum`. -/
+theorem cut_factorisation_chain (pre post : List (MSite σ ι K)) (A B : MSite σ ι K)
+    (hpre : ∀ X ∈ pre, ∑ s, (X s)ᴴ * X s = 1) (hpost : ∀ X ∈ post, ∑ s, X s * (X s)ᴴ = 1) :
+    (∀ (τL : Fin pre.length → σ) (s t : σ) (τR : Fin post.length → σ) (a b : ι),
+      LocalExpect.chain (pre ++ A :: B :: post) (List.ofFn τL ++ s :: t :: List.ofFn τR) a b
+        = (leftP (block pre) * thetaM A B * rightQ (block post) :
+            Matrix (((Fin pre.length → σ) × σ) × ι) ((σ × (Fin post.length → σ)) × ι) K) ((τL, s), a) ((t, τR), b)) ∧
+    ∑ τ, (block pre τ)ᴴ * block pre τ = 1 ∧ ∑ τ, block post τ * (block post τ)ᴴ = 1 := by
+  refine ⟨?_, ?_, ?_⟩
+  · intro τL s t τR a b
+    rw [← psiM_chain, psiM_eq]
+  · have := sum_block_left pre (1 : Matrix ι ι K)
+    simp only [Matrix.mul_one] at this
+    rw [this, envL_one_of_leftIso pre hpre]
+  · rw [sum_block_right, envR_one_of_rightIso post hpost]
+
+end ChainForm
+
+/-- **C11.5 (the matrix the driver computes is the matrix of the theorems)**  `thetaMat` of `Model/Schmidt.lean` —
+    run by the driver on the real tensors and compared with the matrix the real `get_entropy` /
+    `get_schmidt_spectrum` hand to `np.linalg.svd` — is `thetaM A B` with rows / columns in the order of numpy's
+    C-order reshape of `theta` (axes `(phys_i, left, phys_j, right)`): row `σ·χ_l + l`, column `τ·χ_r + r`. -/
+theorem code_matrix_is_model_matrix {K : Type} [CommRing K] {d d' χl χ χr : ℕ}
+    (A : Fin d → Matrix (Fin χl) (Fin χ) K) (B : Fin d' → Matrix (Fin χ) (Fin χr) K) :
+    thetaMat χr (tensorList A) (tensorList B)
+      = List.ofFn fun i : Fin (d * χl) => List.ofFn fun j : Fin (d' * χr) =>
+          thetaM A B (finProdFinEquiv.symm i) (finProdFinEquiv.symm j) :=
+  thetaMat_refines A B
+
+/-! ### concrete instance: `3|000⟩ + 4|111⟩` (unnormalised, integer entries) with the centre on site 1, cut (1,2) -/
+
+/-- site 0 as a left isometry (`1 × 2` blocks) -/
+def exL0 : Fin 2 → Matrix (Fin 1) (Fin 2) ℤ := fun s => if s = 0 then !![1, 0] else !![0, 1]
+/-- site 1, the centre -/
+def exA1 : Fin 2 → Matrix (Fin 2) (Fin 2) ℤ := fun s => if s = 0 then !![3, 0; 0, 0] else !![0, 0; 0, 4]
+/-- site 2, a right isometry -/
+def exB2 : Fin 2 → Matrix (Fin 2) (Fin 1) ℤ := fun s => if s = 0 then !![1; 0] else !![0; 1]
+/-- nothing right of site 2 -/
+def exR3 : Unit → Matrix (Fin 1) (Fin 1) ℤ := fun _ => 1
+def exU : Matrix (Fin 2 × Fin 2) (Fin 2) ℤ := fun p i => if p = (0, 0) ∧ i = 0 ∨ p = (1, 1) ∧ i = 1 then 1 else 0
+def exV : Matrix (Fin 2) (Fin 2 × Fin 1) ℤ := fun i q => if i = 0 ∧ q = (0, 0) ∨ i = 1 ∧ q = (1, 0) then 1 else 0
+def exS : Fin 2 → ℤ := ![3, 4]
+
+/-- the hypotheses of `cut_factorisation` / `schmidt_values` are met by a concrete entangled state, the list model
+    gives the same matrix, and the power traces are those of the Schmidt coefficients `3, 4` -/
+example : (∑ a, (exL0 a)ᴴ * exL0 a = 1) ∧ (∑ b, exR3 b * (exR3 b)ᴴ = 1) ∧
+    thetaM exA1 exB2 = exU * diagonal exS * exV ∧ exUᴴ * exU = 1 ∧ exV * exVᴴ = 1 ∧ (∀ i, star (exS i) = exS i) ∧
+    thetaMat 1 (tensorList exA1) (tensorList exB2) = [[3, 0], [0, 0], [0, 0], [0, 4]] ∧
+    trace (psiM exL0 exA1 exB2 exR3 * (psiM exL0 exA1 exB2 exR3)ᴴ) = 25 ∧
+    trace ((psiM exL0 exA1 exB2 exR3 * (psiM exL0 exA1 exB2 exR3)ᴴ) ^ 2) = 337 := by
+  refine ⟨by decide +kernel, by decide +kernel, by decide +kernel, by decide +kernel, by decide +kernel,
+    by decide +kernel, by decide +kernel, by decide +kernel, by decide +kernel⟩
+
+/-! ### D28: with the centre elsewhere the two-site matrix is not isometrically related to the state -/
+
+/-- site 0 holding the centre (the state as the simulator hands it over: B form) -/
+def offL0 : Fin 2 → Matrix (Fin 1) (Fin 2) ℤ := fun s => if s = 0 then !![3, 0] else !![0, 4]
+/-- site 1 as a right isometry -/
+def offA1 : Fin 2 → Matrix (Fin 2) (Fin 2) ℤ := fun s => if s = 0 then !![1, 0; 0, 0] else !![0, 0; 0, 1]
+
+/-- **C11.5 (`centre_off_cut_counterexample`, D28)**  The same state `3|000⟩ + 4|111⟩` with the orthogonality centre
+    left on site 0 (what `evaluate_observables` did before 0704f22 for the cut (1,2)): the matrix
+    `M' = theta(tensors[1], tensors[2])` the code would SVD is **not** `Ψ` up to isometries — no `P`, `Q` with
+    `Pᴴ P = 1`, `Q Qᴴ = 1`, `Ψ = P M' Q` exist — and not even up to a scalar: the normalised purity
+    `Σ p_k² = tr(ρ²)/tr(ρ)²` is `1/2` for `M'` (entropy `log 2` reported whatever the amplitudes) but `337/625` for
+    the state.  Hence the hypothesis "prefix left-isometric" of `cut_factorisation` cannot be dropped. -/
+theorem centre_off_cut_counterexample :
+    psiM offL0 offA1 exB2 exR3 = psiM exL0 exA1 exB2 exR3 ∧
+    (¬ ∃ (P : Matrix ((Fin 2 × Fin 2) × Fin 1) (Fin 2 × Fin 2) ℤ) (Q : Matrix (Fin 2 × Fin 1) ((Fin 2 × Unit) × Fin 1) ℤ),
+      Pᴴ * P = 1 ∧ Q * Qᴴ = 1 ∧ psiM offL0 offA1 exB2 exR3 = P * thetaM offA1 exB2 * Q) ∧
+    trace ((thetaM offA1 exB2 * (thetaM offA1 exB2)ᴴ) ^ 2)
+        * trace (psiM offL0 offA1 exB2 exR3 * (psiM offL0 offA1 exB2 exR3)ᴴ) ^ 2
+      ≠ trace ((psiM offL0 offA1 exB2 exR3 * (psiM offL0 offA1 exB2 exR3)ᴴ) ^ 2)
+        * trace (thetaM offA1 exB2 * (thetaM offA1 exB2)ᴴ) ^ 2 := by
+  refine ⟨by decide +kernel, ?_, by decide +kernel⟩
+  rintro ⟨P, Q, hP, hQ, hΨ⟩
+  have h := gram_left _ P _ Q hΨ (by rw [hQ, Matrix.mul_one])
+  have ht : trace (psiM offL0 offA1 exB2 exR3 * (psiM offL0 offA1 exB2 exR3)ᴴ)
+      = trace (thetaM offA1 exB2 * (thetaM offA1 exB2)ᴴ) := by
+    rw [h, trace_mul_comm, ← Matrix.mul_assoc, hP, Matrix.one_mul]
+  revert ht
+  decide +kernel
+
+/-! ### the numbers returned -/
+
+/-- **C11.6 (`entropy_formula`)**  What `get_entropy` returns, over `ℝ`: `0` if the bond has dimension 1 or the state
+    is numerically zero, otherwise `−Σ_k p_k · log(p_k + ε)` with `p_k = s_k² / Σ_j s_j²` (natural logarithm,
+    `ε = np.finfo(float64).tiny`); the `p_k` are non-negative and sum to one, so it is the entropy of the
+    *normalised* state.  There is no cut-off on small `p_k`: every singular value LAPACK returns enters. -/
+theorem entropy_formula (eps : ℝ) (bond : ℕ) (s : List ℝ) :
+    entropyR eps 1 s = 0 ∧ (sumSq s = 0 → entropyR eps bond s = 0) ∧
+    (bond ≠ 1 → sumSq s ≠ 0 →
+      entropyR eps bond s = -((probs s).map fun p => p * Real.log (p + eps)).sum ∧
+      (∀ p ∈ probs s, 0 ≤ p) ∧ (probs s).sum = 1) :=
+  ⟨entropyR_bond_one eps s, entropyR_zero_norm eps bond s,
+   fun hb hn => ⟨entropyR_formula eps bond s hb hn, probs_nonneg s, probs_sum s hn⟩⟩
+
+/-- **C11.6 (`entropy_eps_error`: what the `+ tiny` does)**  A term with `p_k = 0` (exactly zero singular value,
+    rank-deficient block) contributes exactly `0` for every `ε` — where `p · log p` would be `0 · (−∞) = NaN` in floating
+    point; and for `ε > 0` the returned number differs from the von Neumann entropy `−Σ p_k log p_k` of the Schmidt
+    probabilities by at most `n · ε` (`n` = number of singular values), never upwards. -/
+theorem entropy_eps_error (eps : ℝ) (bond : ℕ) (s : List ℝ) (hb : bond ≠ 1) (hn : sumSq s ≠ 0) (he : 0 < eps) :
+    (0 : ℝ) * Real.log (0 + eps) = 0 ∧
+    entropyR eps bond s ≤ shannon (probs s) ∧ shannon (probs s) - entropyR eps bond s ≤ s.length * eps := by
+  have h := sum_eps (probs s) eps (probs_nonneg s) he
+  have hlen : (probs s).length = s.length := by simp [probs]
+  rw [entropyR_formula eps bond s hb hn]
+  unfold shannon
+  rw [hlen] at h
+  refine ⟨by simp, by linarith [h.1], by linarith [h.2]⟩
+
+/-- **C11.6 (the `a.shape[2] == 1` shortcut is consistent)**  a cut with a single non-zero singular value has entropy
+    `0` in the general branch too (`ε = 0`) -/
+theorem entropy_single (bond : ℕ) (x : ℝ) (hx : x ≠ 0) : entropyR 0 bond [x] = 0 := entropyR_single bond x hx
+
+example : entropyR 0 2 [1, 1] = Real.log 2 := by
+  have h : sumSq ([1, 1] : List ℝ) ≠ 0 := by norm_num [sumSq]
+  rw [entropyR_formula 0 2 _ (by decide) h]
+  norm_num [probs, sumSq]
+  have : Real.log (1 / 2) = -Real.log 2 := by rw [one_div, Real.log_inv]
+  rw [this]; ring
+
+/-- **C11.6 (`schmidt_padding`)**  What `get_schmidt_spectrum` returns (`top = 500`; `none` = NaN): always exactly
+    `top` entries; for a bond of dimension ≠ 1 entry `k` is the `k`-th singular value for `k < min(top, len s)` —
+    unnormalised, in LAPACK's (descending) order — and NaN behind; more than `top` values are cut. -/
+theorem schmidt_padding {α : Type} [One α] (top bond : ℕ) (s : List α) :
+    (schmidtPad top bond s).length = top ∧
+    (bond ≠ 1 → ∀ k, k < top →
+      (∀ h : k < s.length, (schmidtPad top bond s)[k]? = some (some s[k])) ∧
+      (s.length ≤ k → (schmidtPad top bond s)[k]? = some none)) :=
+  ⟨schmidtPad_length top bond s, fun hb k hk =>
+    ⟨fun h => schmidtPad_getElem_lt top bond s hb k hk h, fun h => schmidtPad_getElem_ge top bond s hb k hk h⟩⟩
+
+/-- **C11.6 (link to C15 `schmidt_is_concatenation`)**  every row a back-end produces for a Schmidt observable has the
+    fixed width `top`, so the concatenation of `T` trajectories' rows that `aggregate_trajectories` builds
+    (C15 `schmidt_is_concatenation`: `results = rows.flatten`, trajectory `i` at offset `i · cols`) has `T · top`
+    entries with `cols = top`, whatever the bond dimensions of the individual trajectories were. -/
+theorem schmidt_rows_concatenate {α : Type} [One α] (top : ℕ) (rows : List (ℕ × List α)) :
+    ((rows.map fun r => schmidtPad top r.1 r.2).flatten).length = rows.length * top := by
+  induction rows with
+  | nil => simp
+  | cons r rs ih =>
+    simp only [List.map_cons, List.flatten_cons, List.length_append, List.length_cons, ih, schmidtPad_length]
+    ring
+
+example : schmidtPad 4 2 [(3 : ℚ) / 5, 2 / 5] = [some (3 / 5), some (2 / 5), none, none] ∧
+    schmidtPad 2 3 [(3 : ℚ), 2, 1] = [some 3, some 2] ∧ schmidtPad 3 1 [(7 : ℚ)] = [some 1, none, none] := by
+  decide +kernel
+
+end Yaqs.Schmidt
